@@ -749,8 +749,8 @@ fn gen_fs(round: u64, r: &mut Rng, out: &mut Out) -> (String, Vec<String>) {
     (format!("pw={}", dev_pw), ops)
 }
 
-const RESP_HOWS: [&str; 11] = ["rnd", "rrand", "ssid", "iter", "salt", "salt15", "salt33", "salt0", "noparams", "status", "opcode"];
-const PAKE2_HOWS: [&str; 7] = ["pb", "cb", "cbzero", "short", "pbinf", "status", "opcode"];
+const RESP_HOWS: [&str; 13] = ["rnd", "rrand", "ssid", "iter", "salt", "salt15", "salt33", "salt0", "noparams", "status", "opcode", "last", "trail"];
+const PAKE2_HOWS: [&str; 9] = ["pb", "cb", "cbzero", "short", "pbinf", "status", "opcode", "last", "trail"];
 const STATUS_HOWS: [&str; 3] = ["fail", "parse", "opcode"];
 
 /// THE INITIATOR: the real `PaseInitiator::perform` against the real responder while PBKDFParamResponse / Pake2 /
